@@ -132,6 +132,35 @@ def canon_result(op, r, messages=True, lockstep=False):
     return out
 
 
+def json_diff(a, b, path="", limit=6):
+    """Paths at which two JSON values differ (first few), for replays and debugging."""
+    out = []
+
+    def go(x, y, p):
+        if len(out) >= limit:
+            return
+        if type(x) != type(y):
+            out.append((p, x, y)); return
+        if isinstance(x, dict):
+            for k in sorted(set(x) | set(y)):
+                if k not in x:
+                    out.append((p + "/" + k, "<absent>", y[k]))
+                elif k not in y:
+                    out.append((p + "/" + k, x[k], "<absent>"))
+                else:
+                    go(x[k], y[k], p + "/" + k)
+        elif isinstance(x, list):
+            if len(x) != len(y):
+                out.append((p + "#len", len(x), len(y))); return
+            for i, (u, v) in enumerate(zip(x, y)):
+                go(u, v, f"{p}[{i}]")
+        elif x != y:
+            out.append((p, x, y))
+
+    go(a, b, path)
+    return out[:limit]
+
+
 def first_diff(ops, ra, rb, messages=True):
     """Index and canonical forms of the first differing result (or None)."""
     n = min(len(ra), len(rb))
